@@ -72,7 +72,8 @@ def tree_desc(draw, max_top=3, max_depth=3, allow_empty=False, family_filter=Non
     arch = draw(st.one_of(gen.arch_pool, st.sampled_from(["src", "src", "x86_64"])))
     platforms = draw(st.lists(platform_name, max_size=3, unique=True))
     ts = draw(timestamps if timestamps is not None else st.one_of(st.integers(1, 2 ** 31), st.integers(-5, -1), st.integers(2 ** 31, 2 ** 40), st.just(1386857206),
-                                                                 st.sampled_from([2 ** 53 + 1, 1758844800123456789, 2 ** 63 - 1, 10 ** 20 + 7]), st.integers(2 ** 53, 2 ** 70)))
+                                                                 st.sampled_from([2 ** 53 + 1, 1758844800123456789, 2 ** 63 - 1, 10 ** 20 + 7, -(2 ** 53) - 1, -1758844800123456789]), st.integers(2 ** 53, 2 ** 70),
+                                                                 st.integers(-(2 ** 70), -(2 ** 53))))
     ntop = draw(st.integers(1, max_top))
     tops = []
     for vid in draw(st.lists(ti_id, min_size=ntop, max_size=ntop, unique=True)):
@@ -114,6 +115,10 @@ def tree_desc(draw, max_top=3, max_depth=3, allow_empty=False, family_filter=Non
             "variants": tops, "images": images, "stage2": stage2, "media": media, "checksums": checksums}
     uids = sorted(n["uid"] for n in tops)
     desc["main_variant"] = draw(st.one_of(st.none(), st.sampled_from(uids)))
+    if draw(st.integers(0, 5)) == 0:
+        # variant objects created for ANOTHER tree (a template, the tree of another arch) and then added to this one:
+        # what is written is decided by the tree being written
+        desc["variants_made_for"] = {"arch": draw(st.sampled_from(["src", None, "x86_64", "ppc64le"])), "timestamp": 7}
     return desc
 
 
@@ -140,24 +145,24 @@ def _shuffled(items, rnd):
     return items
 
 
-def build_ti_variant(ti, node, rnd=None):
+def build_ti_variant(ti, node, rnd=None, made_for=None):
     from productmd.treeinfo import Variant
-    v = Variant(ti)
+    v = Variant(made_for if made_for is not None else ti)
     v.id, v.uid, v.name, v.type = node["id"], node["uid"], node["name"], node["type"]
     for kind in _shuffled(sorted(node["paths"]), rnd):
         setattr(v.paths, kind, node["paths"][kind])
     return v
 
 
-def attach(ti, container, nodes, rnd, top):
+def attach(ti, container, nodes, rnd, top, made_for=None):
     for node in _shuffled(nodes, rnd):
-        v = build_ti_variant(ti, node, rnd)
+        v = build_ti_variant(ti, node, rnd, made_for)
         if top:
             # top-level variants are stored under their UID (what the loader does; identical to the id in the common case)
             container.add(v, variant_id=node["uid"]) if node["uid"] != node["id"] else container.add(v)
         else:
             container.add(v)
-        attach(ti, v, node["children"], rnd, False)
+        attach(ti, v, node["children"], rnd, False, made_for)
 
 
 def build_ti(desc, plan=0):
@@ -178,7 +183,11 @@ def build_ti(desc, plan=0):
             for p in _shuffled(desc["tree"]["platforms"], rnd):
                 ti.tree.platforms.add(p)
         elif step == "variants":
-            attach(ti, ti.variants, desc["variants"], rnd, True)
+            made_for = None
+            if desc.get("variants_made_for"):
+                made_for = TreeInfo()
+                made_for.tree.arch, made_for.tree.build_timestamp = desc["variants_made_for"]["arch"], desc["variants_made_for"]["timestamp"]
+            attach(ti, ti.variants, desc["variants"], rnd, True, made_for)
         elif step == "images":
             for plat in _shuffled(sorted(desc["images"]), rnd):
                 table = ti.images.images.setdefault(plat, {})
